@@ -24,9 +24,15 @@ for d, label in (("seeded", "sub-agent change"), ("regressions", "reverted fix")
                 if l:
                     what = re.sub(r"^Mutant\s*\S*\s*[-–—:]\s*", "", l); break
         mp = os.path.join(V, d, name, "meta.json")
-        oor = json.load(open(mp)).get("out_of_reach") if os.path.exists(mp) else None
+        meta = json.load(open(mp)) if os.path.exists(mp) else {}
+        oor = meta.get("out_of_reach")
+        # a change filed under one property whose broken clause turned out to be another's
+        # (meta.json says why in "note"): the other property's check must catch it
+        moved = [a for a in meta.get("also", []) if meta.get("note") and e["checks"].get(a, {}).get("caught_by")]
         for chk, c in sorted(e["checks"].items()):
             tier = c.get("caught_by") or ("out of reach: stubbed component" if oor else "MISSED")
+            if tier == "MISSED" and moved and chk == e.get("property"):
+                tier = "not this property's clause (see meta.json): caught under " + ", ".join(moved)
             tags = ", ".join(sorted(set((c.get(tier) or c.get("quick") or {}).get("tags", []))))
             rows.append("| %s/%s | %s | %s | %s | %s |" % (d, name, what.replace("|", "/")[:110], chk, tier, tags))
 tab = "| change | what it does | check | caught at | oracle tags |\n|---|---|---|---|---|\n" + "\n".join(rows) + "\n"
